@@ -91,6 +91,46 @@ func parseCfg(tok string) (caseCfg, error) {
 		badInfo: n[10] == 1}, nil
 }
 
+// per-op watchdog: the property says that handling a message terminates
+const opTimeout = 6 * time.Second
+const maxHangs = 4
+
+var hangs int
+
+func (w *world) emit(op, obs string) {
+	if !w.quiet {
+		w.c.Emit(op, obs)
+	}
+}
+func (w *world) count(tag, key string, nt bool) {
+	if !w.quiet {
+		w.c.Count(tag, key, nt)
+	}
+}
+func (w *world) violate(kind, detail string, ops []string) {
+	if !w.quiet {
+		w.c.Violate(kind, detail, ops)
+	}
+}
+
+// guarded runs one call of the real code under recover and a watchdog; hung = it did not
+// return within opTimeout (its goroutine is abandoned).
+func guarded(f func()) (alloc uint64, pn string, hung bool) {
+	var m0, m1 runtime.MemStats
+	runtime.ReadMemStats(&m0)
+	done := make(chan string, 1)
+	go func() { done <- vhlib.Recover(f) }()
+	tm := time.NewTimer(opTimeout)
+	defer tm.Stop()
+	select {
+	case p := <-done:
+		runtime.ReadMemStats(&m1)
+		return m1.TotalAlloc - m0.TotalAlloc, p, false
+	case <-tm.C:
+		return 0, "", true
+	}
+}
+
 type syncMarker struct{ ch chan struct{} }
 
 // accounted: a PeerRequest whose chunks were already reserved in the `tev` line of the
@@ -115,6 +155,9 @@ type world struct {
 	dead       bool // the peer returned an error / exited
 	pool       []pex.Peer
 	twin       bool
+	quiet      bool // a twin rebuilt by replay: nothing is emitted, counted or reported
+	poisoned   bool // a call of the real code never returned; the world is abandoned
+	last       stepAcc
 	fastRate   bool
 	finalWait  int
 }
@@ -483,6 +526,9 @@ type stepAcc struct {
 	what    string
 	ops0    int
 	isPiece bool
+	hung    bool
+	pn      string
+	bound   uint64
 }
 
 // feedTor hands one peer-emitted event to the real torrent and emits the `tev` op.
@@ -490,7 +536,18 @@ func (w *world) feedTor(e peer.TorEvent, acc *stepAcc, synthetic bool) {
 	full, _ := tevCanon(e, vhlib.Hex)
 	before := w.t.VerifInfoState()
 	var err error
-	ta, pn := measure(func() { err = tor.VerifHandleEvent(context.Background(), w.t, e) })
+	ta, pn, hung := guarded(func() { err = tor.VerifHandleEvent(context.Background(), w.t, e) })
+	if hung {
+		kw := "tev"
+		if synthetic {
+			kw = "tevs"
+		}
+		w.emit(fmt.Sprintf("%s 0:-:0:1:0:0:0:- 0 %s", kw, full), "hang")
+		w.violate("hang:tor:"+evName(e), "tor.handleEvent did not return within "+opTimeout.String()+" on "+clip(full), w.c.Case())
+		w.poisoned, w.dead = true, true
+		hangs++
+		return
+	}
 	if acc != nil {
 		acc.alloc += ta
 	}
@@ -550,13 +607,13 @@ func (w *world) feedTor(e peer.TorEvent, acc *stepAcc, synthetic bool) {
 	if synthetic {
 		kw = "tevs"
 	}
-	w.c.Emit(fmt.Sprintf("%s %s %d %s", kw, env, ta, full), fmt.Sprintf("res=%s %s aok", res, tsnap))
-	w.c.Count("tor:"+evName(e)+":"+res, full, true)
+	w.emit(fmt.Sprintf("%s %s %d %s", kw, env, ta, full), fmt.Sprintf("res=%s %s aok", res, tsnap))
+	w.count("tor:"+evName(e)+":"+res, full, true)
 	if !synthetic {
 		if pn != "" {
-			w.c.Violate("panic:tor:"+evName(e), "tor.handleEvent panicked on an event emitted by a peer: "+pn+" event "+clip(full), w.c.Case())
+			w.violate("panic:tor:"+evName(e), "tor.handleEvent panicked on an event emitted by a peer: "+pn+" event "+clip(full), w.c.Case())
 		} else if err != nil {
-			w.c.Violate("tor-error:"+evName(e), "tor.handleEvent returned an error (the torrent's loop would exit): "+err.Error(), w.c.Case())
+			w.violate("tor-error:"+evName(e), "tor.handleEvent returned an error (the torrent's loop would exit): "+err.Error(), w.c.Case())
 		}
 	}
 	// requeue the torrent's commands for the main loop
@@ -642,20 +699,37 @@ func (w *world) runPeer(kind string, opText string, wire int, m protocol.Message
 	w.p.VerifPinActive(w.p.VerifActiveOld())
 	w.p.VerifRateRegime(w.fastRate)
 	acc := &stepAcc{wire: wire, what: kind}
-	switch mm := m.(type) {
-	case protocol.Extended0:
-		acc.meta = true
-	case protocol.ExtendedMetadata:
-		acc.meta = mm.Type == 1
-	case protocol.Piece:
-		acc.isPiece = true
-	}
 	skip, complete := false, false
 	if pm, ok := m.(protocol.Piece); ok && w.p.VerifState().HasInfo && int(pm.Index) < w.t.Pieces.Num() {
 		skip = w.t.Pieces.Complete(pm.Index)
 	}
+	stTok := stateTok(w)
+	// state the message may touch: the bitmap it retracts (copied into the retraction
+	// event), the requests it drops or rejects one by one
+	pre := w.p.VerifState()
+	touched := 2*uint64(len(pre.Bitmap)) + 256*uint64(len(pre.Queue)+len(pre.Requested)+len(pre.Upload))
 	var err error
-	ta, pn := measure(func() { err = call() })
+	ta, pn, hung := guarded(func() { err = call() })
+	if hung {
+		name := strings.SplitN(opText, " ", 2)[0]
+		var op string
+		switch kind {
+		case "msg":
+			op = fmt.Sprintf("msg 00 0 %s", opText)
+		case "exit":
+			op = "exit 0"
+		default:
+			op = fmt.Sprintf("%s 0 %s", kind, opText)
+		}
+		w.emit(op, "hang")
+		w.count(kind+":"+name+":hang", opText, true)
+		w.violate("hang:peer:"+kind+":"+name+":"+stTok, "the peer handler did not return within "+opTimeout.String()+" on "+clip(opText), w.c.Case())
+		w.poisoned, w.dead = true, true
+		hangs++
+		acc.hung = true
+		w.last = *acc
+		return
+	}
 	acc.alloc += ta
 	wl := len(w.p.VerifWriter())
 	outs := w.drainWriter()
@@ -694,14 +768,14 @@ func (w *world) runPeer(kind string, opText string, wire int, m protocol.Message
 	default:
 		op = fmt.Sprintf("%s %d %s", kind, ta, opText)
 	}
-	w.c.Emit(op, obs)
+	w.emit(op, obs)
 	name := strings.SplitN(opText, " ", 2)[0]
-	w.c.Count(kind+":"+name+":"+strings.SplitN(res, ":", 2)[0], opText, true)
+	w.count(kind+":"+name+":"+strings.SplitN(res, ":", 2)[0], opText, true)
 	if pn != "" {
 		if m == nil && kind == "msg" || isFlush(m) {
 			// documented: only a broken reader produces these (C04_never_nilnil)
 		} else {
-			w.c.Violate("panic:peer:"+kind+":"+name+":"+infoTok(w), "peer handler panicked: "+pn+" on "+clip(opText), w.c.Case())
+			w.violate("panic:peer:"+kind+":"+name+":"+infoTok(w), "peer handler panicked: "+pn+" on "+clip(opText), w.c.Case())
 		}
 		w.dead = true
 	}
@@ -709,23 +783,77 @@ func (w *world) runPeer(kind string, opText string, wire int, m protocol.Message
 		w.dead = true
 	}
 	// everything the call gave rise to
+	nmax := w.nmax() // before the events: a completing metadata block changes it
 	for _, e := range own {
+		if w.poisoned {
+			break
+		}
 		if _, ok := tevCanon(e, vhlib.Payload); ok {
 			w.feedTor(e, acc, false)
 		} else {
 			vhlib.Recover(func() { tor.VerifHandleEvent(context.Background(), w.t, e) })
 		}
 	}
+	acc.pn = pn
+	if w.poisoned {
+		w.last = *acc
+		return
+	}
 	w.internalEvents()
 	// allocation clause of the property
-	bound := uint64(allocFactor*acc.wire) + allocSlack + indexFactor*w.nmax() + 2*uint64(w.t.Pieces.PieceSize())
-	if acc.meta {
-		bound += metaConst
-	}
-	if kind == "msg" && acc.alloc > bound {
-		w.c.Violate("alloc:"+name+":"+infoTok(w), fmt.Sprintf("%d bytes allocated for a %d-byte message (bound %d): %s", acc.alloc, acc.wire, bound, clip(opText)), w.c.Case())
+	bound := allocBound(m, acc.wire, nmax, uint64(w.t.Pieces.PieceSize()), len(w.info)) + touched
+	acc.bound = bound
+	w.last = *acc
+	// (a call that never returned keeps allocating in its abandoned goroutine: the process-wide
+	// counter is meaningless from then on)
+	if kind == "msg" && acc.alloc > bound && hangs == 0 {
+		w.violate("alloc:"+name+":"+infoTok(w), fmt.Sprintf("%d bytes allocated for a %d-byte message (bound %d): %s", acc.alloc, acc.wire, bound, clip(opText)), w.c.Case())
 	}
 	w.syncLevel()
+}
+
+// allocBound is the allocation clause of the property for one message and everything it
+// gives rise to: proportional to the wire size, plus a constant that depends on the class
+// of the message only (never on its numeric fields):
+//   every message       128*wire + 256 KiB + 2*pieceSize (a solicited block allocates its piece)
+//                       + state touched: 2*len(peer bitmap) (its copy in the retraction event),
+//                         256 per queued/sent/upload request (dropped or rejected one by one);
+//                         that state was itself paid for by earlier messages of that size
+//   Have/Bitfield/HaveAll  + 12*Nmax: the structures indexed by piece number (peer bitmap
+//                          N/8, availability 2N with append growth <= 5x)
+//   Extended0              + the metadata buffers resizeMetadata may allocate (cap 128 MiB)
+//   metadata data          + 64*len(info) + 1 MiB: parsing the authentic metadata on completion
+func allocBound(m protocol.Message, wire int, nmax, ps uint64, infoLen int) uint64 {
+	b := uint64(allocFactor*wire) + allocSlack + 2*ps
+	switch mm := m.(type) {
+	case protocol.Have, protocol.Bitfield, protocol.HaveAll:
+		b += indexFactor * nmax
+	case protocol.Extended0:
+		b += metaConst
+	case protocol.ExtendedMetadata:
+		if mm.Type == 1 {
+			b += 64*uint64(infoLen) + 1<<20
+		}
+	}
+	return b
+}
+
+// stateTok: the capability state a hang or panic is reported in
+func stateTok(w *world) string {
+	st := w.p.VerifState()
+	s := "noinfo"
+	if st.HasInfo {
+		s = "info"
+	}
+	if st.CanFast {
+		s += "+fast"
+	}
+	if st.Unchoked {
+		s += "+unchoked"
+	} else {
+		s += "+choked"
+	}
+	return s
 }
 
 func infoTok(w *world) string {
@@ -744,12 +872,15 @@ func isFlush(m protocol.Message) bool {
 // drained it to read the output) and, when the writer is gone, keeps the queue full so
 // that the result of write is deterministic.
 func (w *world) syncLevel() {
+	if w.poisoned {
+		return
+	}
 	k := 0
 	if w.wdone {
 		k = w.cfg.wcap
 	}
 	w.setLevel(k)
-	w.c.Emit(fmt.Sprintf("env setw %d", k), "ok")
+	w.emit(fmt.Sprintf("env setw %d", k), "ok")
 }
 
 // pumpPending feeds the torrent's queued commands to the peer, as ops of their own.
@@ -777,7 +908,12 @@ func (w *world) applyPev(pe peer.PeerEvent, kw string) {
 	s, ok := pevCanon(w, pe)
 	if !ok {
 		// PeerPex etc.: not modelled, no effect on the modelled state
-		vhlib.Recover(func() { peer.VerifHandleEvent(w.p, pe) })
+		if _, _, hung := guarded(func() { peer.VerifHandleEvent(w.p, pe) }); hung {
+			w.violate("hang:peer:pev:unmodelled:"+stateTok(w), fmt.Sprintf("the peer handler did not return on %T", pe), w.c.Case())
+			w.poisoned, w.dead = true, true
+			hangs++
+			return
+		}
 		w.drainWriter()
 		return
 	}
@@ -788,29 +924,35 @@ func (w *world) applyPev(pe peer.PeerEvent, kw string) {
 			t := u32s(rq.Chunks)
 			cs = t[1 : len(t)-1]
 		}
-		w.c.Emit("treq "+cs, w.torSnap())
+		w.emit("treq "+cs, w.torSnap())
 	}
 	w.runPeer(kw, s, 0, nil, func() error { return peer.VerifHandleEvent(w.p, pe) })
 }
 
 // exitPeer replays the exit path of Run, then checks that nothing of this peer is left.
 func (w *world) exitPeer() {
+	if w.poisoned {
+		return
+	}
 	w.runPeer("exit", "exit", 0, nil, func() error { peer.VerifExit(w.p); return nil })
+	if w.poisoned {
+		return
+	}
 	w.pumpPendingDead()
 	for _, q := range w.t.VerifPeers() {
 		if q == w.p {
-			w.c.Violate("disconnect:peer-still-registered", "after the exit path the torrent still lists the peer", w.c.Case())
+			w.violate("disconnect:peer-still-registered", "after the exit path the torrent still lists the peer", w.c.Case())
 		}
 	}
 	for i, v := range w.t.VerifAvailable() {
 		if v != 0 {
-			w.c.Violate("disconnect:available-not-retracted", fmt.Sprintf("available[%d]=%d after the only peer left", i, v), w.c.Case())
+			w.violate("disconnect:available-not-retracted", fmt.Sprintf("available[%d]=%d after the only peer left", i, v), w.c.Case())
 			break
 		}
 	}
 	select {
 	case <-w.t.Done:
-		w.c.Violate("disconnect:torrent-died", "the torrent is done after a peer left", w.c.Case())
+		w.violate("disconnect:torrent-died", "the torrent is done after a peer left", w.c.Case())
 	default:
 	}
 }
